@@ -115,6 +115,10 @@ def main():
         if rec["confirmed"]:
             tmp = Path(f"/tmp/seedpatch_{tag}.diff")
             tmp.write_text(norm)
+            # several instances may confirm in parallel; only one at a time may patch /repo
+            import fcntl
+            lock = open("/tmp/seeded_repo.lock", "w")
+            fcntl.flock(lock, fcntl.LOCK_EX)
             a = sh(["git", "-C", str(REPO), "apply", str(tmp)])
             try:
                 if a.returncode == 0:
@@ -134,7 +138,9 @@ def main():
                 tmp.unlink(missing_ok=True)
             for prop_dir in (ROOT / "replay").glob("C*"):
                 for f in prop_dir.glob("*.json"):
-                    f.unlink()
+                    f.unlink(missing_ok=True)
+            fcntl.flock(lock, fcntl.LOCK_UN)
+            lock.close()
         rec["checks"] = checks
         print(tag, "confirmed" if rec["confirmed"] else "NOT-CONFIRMED", {k: v["verdict"] for k, v in checks.items()},
               {k: rec.get(k) for k in ("tests_ok", "demo_with_patch_rc", "demo_without_patch_rc")}, flush=True)
